@@ -60,7 +60,9 @@ impl RandomPolicy {
                 Some(val) => {
                     let len = val.1.len();
                     debug!("Evicted: {} bytes from storage", len);
-                    usage = self.decr_mem_usage(len as u64);
+                    // decr_mem_usage returns the value before the subtraction
+                    self.decr_mem_usage(len as u64);
+                    usage = usage.saturating_sub(len as u64);
                 }
                 None => {}
             });
